@@ -125,6 +125,20 @@ def rule_b(ctx):
     ib = ctx.body(IPQ + "IndexedPriorityQueue::insert")
     if ib:
         _insert_epoch_rules(ctx, ib, IPQ + "UniqueKey", None)
+    # the epoch counters only ever grow: the single writer of next_epoch is the increment in insert
+    writers = []
+    for b in P.all_bodies():
+        if not (b.name.startswith(PQ) or b.name.startswith(IPQ)) or "::tests" in b.name:
+            continue
+        for s in b.assigns():
+            pp = s.node["p"]["p"]
+            if pp and pp[-1] != "*" and pp[-1][0] == "f" and pp[-1][2] == "next_epoch":
+                writers.append(s)
+    allowed = {PQ + "PriorityQueue::insert", IPQ + "IndexedPriorityQueue::insert"}
+    bad = [s for s in writers if s.body.name not in allowed]
+    ctx.ob("epoch-counter-only-grows", len(writers) == 2 and not bad,
+           "next_epoch is written only by the `+= 1` of insert (never reset or rewound: an epoch, and hence an InsertKey or a FIFO rank, "
+           "is never issued twice)", bad or writers)
     nb = ctx.body(PQ + "PriorityQueue::new")
     if nb:
         aggs = list(nb.aggregates(adt=PQ + "PriorityQueue"))
